@@ -109,6 +109,14 @@ impl Registry {
         for &(ref prefix, ref value) in &self.prefixes {
             if let Some(name) = name.strip_prefix(prefix) {
                 if let Some(canonicalized) = self.canonicalize_exact(name) {
+                    // A prefix only goes in front of a plain unit: if the alias
+                    // expands to a unit that carries a prefix of its own, the
+                    // alias is kept.
+                    let canonicalized = if self.lookup_exact(&canonicalized).is_some() {
+                        canonicalized
+                    } else {
+                        name.to_owned()
+                    };
                     let mut prefix = prefix;
                     for &(ref other, ref otherval) in &self.prefixes {
                         if other.len() > prefix.len() && value == otherval {
